@@ -56,7 +56,8 @@ StrayIfClosers ==
       /\ ~HasOpen(m, {"if", "sw"})) => m' = Err(Tick(m))]_vars
 \* wrong argument count of a live pseudo / data / function statement: ErrorStep, exactly one more error
 ArgCountIsErrorStep ==
-  [][(Live(m) /\ S.argc <= AMAX /\ Op(S.op).g \in {"ps", "da", "fn"} /\ ArgcBad(S)) => m' = Err(Tick(m))]_vars
+  [][(Live(m) /\ S.argc <= AMAX /\ ArgcBad(S) /\ (Op(S.op).g \in {"ps", "da"} \/ (Op(S.op).g = "fn" /\ S.argc > 0)))
+       => m' = Err(Tick(m))]_vars
 \* a skipped statement outside the IF / macro machinery has no effect at all, whatever its arguments are
 SkippedInert ==
   [][(~m.ifasm /\ ~m.rec.on /\ Running(m) /\ S.argc <= AMAX
